@@ -6,6 +6,7 @@ package actor
 // sending actor, Forward: the forwarding actor with the forwarded message).
 
 import (
+	"sync/atomic"
 	"fmt"
 	"strconv"
 	"strings"
@@ -93,6 +94,10 @@ func TestVerifCtxAPI(t *testing.T) {
 	}
 	defer w.Close()
 	emit := func(id string, n int, mode string, inbox int) {
+		if mode == "b" {
+			w.Case(id, fmt.Sprintf("n=%d mode=b inbox=%d", n, inbox), runManyBusy(t, n))
+			return
+		}
 		w.Case(id, fmt.Sprintf("n=%d mode=%s inbox=%d", n, mode, inbox), runCtxAPI(t, n, mode, inbox))
 	}
 	if in, ok := vgen.ReplayInput(); ok {
@@ -104,6 +109,7 @@ func TestVerifCtxAPI(t *testing.T) {
 		m, _ := vgen.KV(in, "mode")
 		emit(fmt.Sprintf("corpus%d", i), vgen.KVInt(in, "n", 1), m, vgen.KVInt(in, "inbox", 4))
 	}
+	emit("busy", 600, "b", 1024) // 600 actors of two engines are inside Receive at the same time; an idle one gets a message
 	r := vgen.NewRng(vgen.Seed())
 	for i := 0; i < vgen.Scale(60, 1500); i++ {
 		n := 1 + r.Intn(300)
@@ -112,4 +118,59 @@ func TestVerifCtxAPI(t *testing.T) {
 		}
 		emit(fmt.Sprintf("g%d", i), n, vgen.Pick(r, []string{"r", "s", "f", "m"}), vgen.Pick(r, []int{1, 2, 3, 1024}))
 	}
+}
+
+
+// runManyBusy: n actors, spread over two engines of this process, are blocked inside Receive (waiting on a channel, as an
+// actor waiting for a reply would); a message to one more actor, on a third engine, must still be handed to it promptly.
+func runManyBusy(t testing.TB, n int) string {
+	gate := make(chan struct{})
+	var inside int32
+	var engines []*Engine
+	for k := 0; k < 3; k++ {
+		e, err := NewEngine(NewEngineConfig())
+		if err != nil {
+			t.Fatal(err)
+		}
+		engines = append(engines, e)
+	}
+	var pids []*PID
+	for i := 0; i < n; i++ {
+		e := engines[i%2]
+		pid := e.SpawnFunc(func(c *Context) {
+			if _, ok := c.Message().(vUser); ok {
+				atomic.AddInt32(&inside, 1)
+				<-gate
+			}
+		}, "busy", WithID(strconv.Itoa(i)))
+		e.Send(pid, vUser{i})
+		pids = append(pids, pid)
+	}
+	deadline := time.Now().Add(5 * time.Second)
+	for atomic.LoadInt32(&inside) < int32(n) && time.Now().Before(deadline) {
+		time.Sleep(time.Millisecond)
+	}
+	if k := atomic.LoadInt32(&inside); k < int32(n) {
+		close(gate)
+		return fmt.Sprintf("NOT-DELIVERED(only %d of %d actors were handed their message)", k, n)
+	}
+	got := make(chan struct{}, 1)
+	idle := engines[2].SpawnFunc(func(c *Context) {
+		if _, ok := c.Message().(vUser); ok {
+			got <- struct{}{}
+		}
+	}, "idle", WithID("x"))
+	engines[2].Send(idle, vUser{-1})
+	res := "delivered"
+	select {
+	case <-got:
+	case <-time.After(3 * time.Second):
+		res = "NOT-DELIVERED(a live, idle actor did not get its message while " + strconv.Itoa(n) + " others were busy)"
+	}
+	close(gate)
+	for i, p := range pids {
+		<-engines[i%2].Poison(p).Done()
+	}
+	<-engines[2].Poison(idle).Done()
+	return res
 }
